@@ -16,7 +16,9 @@ import ast
 import os
 
 from .. import translate
+from . import normalize
 from .eg import CONSTS, EG_FILE, LAG_FILE, Expr, find_func, one, rat_lit  # noqa: F401  (eg registers its own lifter)
+from .moments import inline_temps, respell
 
 
 def U(msg):
@@ -153,7 +155,7 @@ def _pre_loop(func):
 
 def _loop_target(func):
     for n in func.body:
-        if isinstance(n, ast.For) and isinstance(n.target, ast.Name) and ast.unparse(n.iter).startswith("range(0, self.max_iter"):
+        if isinstance(n, ast.For) and isinstance(n.target, ast.Name) and ast.unparse(n.iter).startswith("range(self.max_iter"):
             return {n.target.id: "t"}
     return {}
 
@@ -181,7 +183,7 @@ FIT_RULES = [
     by_value(r"^pd\.Series\(dtype='float64'\)$", "Qsum", _pre_loop),
     by_value(r"^_REGRET_CHECK_START_T$", "last_regret_checked", _pre_loop),
     by_value(r"^np\.inf$", "last_gap", _pre_loop),
-    by_value(r"np\.exp\(theta\)", "lambda_vec"),
+    by_value(r"np\.exp\(theta\).*/|/.*np\.exp\(theta\)", "lambda_vec"),
     by_value(r"^lagrangian\.best_h\(lambda_vec\)$", ["h", "h_idx"]),
     by_value(r"^lagrangian\.gammas\[h_idx\]$", "gamma"),
     by_value(r"^lagrangian\.eval_gap\(", "result_EG"),
@@ -219,6 +221,92 @@ def _lp_call_roles(func):
 
 
 LP_RULES.append(_lp_call_roles)
+
+
+# ---- behaviour-preserving re-spellings undone before matching (shared with eg.py) ------------------------------------
+# locals of the pinned source in order of first binding (normalize.binding_order)
+FIT_LOCALS = ["B", "lagrangian", "theta", "Qsum", "gaps_EG", "gaps", "Qs", "last_regret_checked", "last_gap", "t", "lambda_vec",
+              "lambda_EG", "h", "h_idx", "eta", "gamma", "Q_EG", "result_EG", "gap_EG", "gap_LP", "Q_LP", "result_LP", "best_gap",
+              "gaps_series", "gaps_best"]
+LAG_LOCALS = {
+    "_eval": ["error", "gamma", "L", "max_constraint", "L_high"],
+    "eval_gap": ["L", "L_high", "gamma", "error", "result", "mul", "_", "h_hat_idx", "L_low_mul"],
+    "best_h": ["classifier", "h", "h_error", "h_gamma", "h_value", "best_idx", "best_value", "values", "h_idx"],
+    "solve_linprog": ["n_hs", "n_constraints", "c", "A_ub", "b_ub", "A_eq", "b_eq", "result", "Q", "dual_c", "dual_A_ub", "dual_b_ub",
+                      "i", "dual_bounds", "result_dual", "lambda_vec"],
+}
+# methods that only read (numpy / pandas reductions, the moments' accessors): a temporary holding such a value may be
+# substituted into several readers
+READS = {"exp", "sum", "bound", "gap", "mean", "min", "max", "abs", "std", "sqrt", "transpose", "sub", "dot", "ones", "zeros"}
+FIT_ARITH = ["B * np.exp(theta) / (1 + np.exp(theta).sum())", "last_regret_checked * _REGRET_CHECK_INCREASE_T",
+             "last_gap * _SHRINK_REGRET", "eta * (gamma - self.constraints.bound())", "gaps_series.min() + _PRECISION"]
+FIT_TESTS = ["t == 0 or not self.run_linprog_step", "t == 0", "gaps[t] < self.nu and t >= _MIN_ITER", "gaps[t] < self.nu",
+             "t >= _MIN_ITER", "t >= last_regret_checked * _REGRET_CHECK_INCREASE_T", "best_gap > last_gap * _SHRINK_REGRET",
+             "gap_EG < gap_LP", "gaps_series <= gaps_series.min() + _PRECISION"]
+FIT_AUG = ["theta", "eta", "Qsum[h_idx]"]
+CALLS = {
+    "pd.Series": (["data", "index", "dtype", "name", "copy"], "f(a, b)"),
+    "mean": (["axis", "skipna", "numeric_only"], "f(axis=1)"),
+    "eval_gap": (["Q", "lambda_hat", "nu"], "f(a, b, c)"),
+    "_eval": (["Q", "lambda_vec"], "f(a, b)"),
+    "best_h": (["lambda_vec"], "f(a)"),
+    "solve_linprog": (["nu"], "f(a)"),
+    "opt.linprog": (["c", "A_ub", "b_ub", "A_eq", "b_eq", "bounds", "method"],
+                    "f(c, A_ub=1, b_ub=1, A_eq=1, b_eq=1, bounds=1, method=1)"),
+    "sub": (["other", "axis", "level", "fill_value"], "f(a, axis=0)"),
+}
+LAG_ARITH = ["mul * lambda_hat", "nu + _PRECISION", "h_error + h_gamma.dot(lambda_vec)",
+             "self.errors + self.gammas.transpose().dot(lambda_vec)", "self.B * max_constraint",
+             "lambda_vec * (gamma - self.constraints.bound())",
+             "error + np.sum(lambda_vec * (gamma - self.constraints.bound()))", "n_constraints + 1"]
+LAG_TESTS = ["result.gap() > nu + _PRECISION", "L_low_mul < result.L_low", "max_constraint > 0",
+             "h_value < best_value - _PRECISION", "self.last_linprog_n_hs == n_hs", "i == n_constraints"]
+LAG_AUG = ["L_high"]
+
+
+class _ConcatTuple(ast.NodeTransformer):
+    """`np.concatenate([a, b], ...)` -> `np.concatenate((a, b), ...)` (any sequence of arrays is accepted)"""
+
+    def visit_Call(self, node):
+        self.generic_visit(node)
+        if ast.unparse(node.func) == "np.concatenate" and node.args and isinstance(node.args[0], ast.List):
+            node.args[0] = ast.copy_location(ast.Tuple(elts=node.args[0].elts, ctx=ast.Load()), node.args[0])
+        return node
+
+
+def prepare_fit(tree):
+    """ExponentiatedGradient.fit with locals renamed by role, temporaries the pinned source does not have inlined, and
+    commuted / mirrored / keyword-vs-positional spellings brought back to the pinned ones"""
+    fit = find_func(tree, "ExponentiatedGradient", "fit")
+    kw = dict(arith=FIT_ARITH, tests=FIT_TESTS, aug=FIT_AUG, calls=CALLS)
+    respell(fit, **kw)
+    canonicalise(fit, FIT_RULES)
+    inline_temps(fit, FIT_LOCALS, READS)
+    respell(fit, **kw)
+    canonicalise(fit, FIT_RULES)
+    new = normalize.rename_locals(fit, FIT_LOCALS)
+    fit.body = new.body
+    respell(fit, **kw)
+    return fit
+
+
+def prepare_lagrangian(tree):
+    """the same for _Lagrangian._eval / eval_gap / best_h / solve_linprog (in place); returns the tree"""
+    kw = dict(arith=LAG_ARITH, tests=LAG_TESTS, aug=LAG_AUG, calls=CALLS)
+    for name, pinned in LAG_LOCALS.items():
+        fn = find_func(tree, "_Lagrangian", name)
+        _ConcatTuple().visit(fn)
+        respell(fn, **kw)
+        if name == "solve_linprog":
+            canonicalise(fn, LP_RULES)
+        inline_temps(fn, pinned, READS)
+        respell(fn, **kw)
+        if name == "solve_linprog":
+            canonicalise(fn, LP_RULES)
+        new = normalize.rename_locals(fn, pinned)
+        fn.body, fn.args = new.body, new.args
+        respell(fn, **kw)
+    return tree
 
 
 def assigns(body, name):
@@ -263,12 +351,11 @@ def lift_egloop(repo):
     cenv = {k: (v[0], v[1]) for k, v in CONSTS.items()}
 
     src = open(os.path.join(repo, EG_FILE)).read()
-    tree = ast.parse(src)
-    fit = find_func(tree, "ExponentiatedGradient", "fit")
-    canonicalise(fit, FIT_RULES)
+    tree = normalize.parse(src)
+    fit = prepare_fit(tree)
     fbody = strip_logging(fit.body)
     loop = one([n for n in fbody if isinstance(n, ast.For) and ast.unparse(n.target) == "t"], "`for t in ...` loop in fit")
-    if ast.unparse(loop.iter) != "range(0, self.max_iter)" or loop.orelse:
+    if ast.unparse(loop.iter) != "range(self.max_iter)" or loop.orelse:
         raise U(f"loop header changed: for {ast.unparse(loop.target)} in {ast.unparse(loop.iter)}")
     body = strip_logging(loop.body)
     li = fbody.index(loop)
@@ -460,7 +547,7 @@ def lift_egloop(repo):
 
     # ---- _lagrangian.py: eval_gap / best_h ---------------------------------------------------------------------------------
     src = open(os.path.join(repo, LAG_FILE)).read()
-    tree = ast.parse(src)
+    tree = prepare_lagrangian(normalize.parse(src))
     eg = find_func(tree, "_Lagrangian", "eval_gap")
     ebody = strip_logging(eg.body)
     first = ebody[0]
@@ -514,9 +601,10 @@ def lift_egloop(repo):
     emit("`h_value = h_error + h_gamma.dot(lambda_vec)` (note: WITHOUT the `- lambda.bound` term of the Lagrangian)",
          "hValue (hError gammaDotLambda : Rat) : Rat", term)
     meta["h_value"] = ast.unparse(hv.value)
-    sel = one([n for n in bb if isinstance(n, ast.If) and ast.unparse(n.test) == "not self.hs.empty"], "`if not self.hs.empty`")
-    sb = [ast.unparse(n) for n in sel.body]
-    so = [ast.unparse(n) for n in sel.orelse]
+    # normalize.parse has turned `if not self.hs.empty: A else: B` into `if self.hs.empty: B else: A`
+    sel = one([n for n in bb if isinstance(n, ast.If) and ast.unparse(n.test) == "self.hs.empty"], "`if not self.hs.empty`")
+    sb = [ast.unparse(n) for n in sel.orelse]
+    so = [ast.unparse(n) for n in sel.body]
     if sb != ["values = self.errors + self.gammas.transpose().dot(lambda_vec)", "best_idx = values.idxmin()",
               "best_value = values[best_idx]"] or so != ["best_idx = -1", "best_value = np.inf"]:
         raise U(f"best stored value computation changed: {sb} / {so}")
@@ -630,9 +718,8 @@ class MExpr:
 @translate.lifter
 def lift_linprog(repo):
     src = open(os.path.join(repo, LAG_FILE)).read()
-    tree = ast.parse(src)
+    tree = prepare_lagrangian(normalize.parse(src))
     fn = find_func(tree, "_Lagrangian", "solve_linprog")
-    canonicalise(fn, LP_RULES)
     body = strip_logging(fn.body)
     out = ["/-", "GENERATED by harness/lifters/egloop.py (lift_linprog) from", f"  {LAG_FILE} (solve_linprog)",
            "Do not edit: regenerated (and the theorems of C08 re-checked against it) on every run.", "-/",
